@@ -53,6 +53,33 @@ fn reference_cell(op: usize, req: usize, inst: Option<usize>) -> bool {
     }
 }
 
+/// The same field as lossless trees of different provenance: parsed; normalised by wrap_and_sort; rebuilt relation by
+/// relation through the lossy form (From<lossy::Relation>); rebuilt with Relation::new; parsed and then edited with
+/// set_version to the constraint it already has.  And as lossy values: parsed; converted from the lossless tree.
+fn ll_variants(text: &str) -> Vec<(&'static str, ll::Relations)> {
+    let parsed = ll::Relations::from_str(text).unwrap();
+    let mut out = vec![("parsed", ll::Relations::from_str(text).unwrap())];
+    out.push(("normalised by wrap_and_sort", ll::Relations::from_str(text).unwrap().wrap_and_sort()));
+    let via_lossy: Vec<ll::Entry> = parsed.entries().map(|e| ll::Entry::from(e.relations().map(|r| ll::Relation::from(ly::Relation::from(r))).collect::<Vec<_>>())).collect();
+    out.push(("rebuilt through the lossy form", ll::Relations::from(via_lossy)));
+    let via_new: Vec<ll::Entry> = parsed.entries().map(|e| ll::Entry::from(e.relations().map(|r| ll::Relation::new(&r.name(), r.version())).collect::<Vec<_>>())).collect();
+    out.push(("rebuilt with Relation::new", ll::Relations::from(via_new)));
+    let edited = ll::Relations::from_str(text).unwrap();
+    for e in edited.entries() {
+        for mut r in e.relations() {
+            let v = r.version();
+            r.set_version(v);
+        }
+    }
+    out.push(("edited with set_version", edited));
+    out
+}
+fn ly_variants(text: &str) -> Vec<(&'static str, ly::Relations)> {
+    let parsed = ly::Relations::from_str(text).unwrap();
+    let conv = ly::Relations(ll::Relations::from_str(text).unwrap().entries().map(|e| e.relations().map(ly::Relation::from).collect()).collect());
+    vec![("parsed", parsed), ("converted from the lossless tree", conv)]
+}
+
 fn check_cell(op: usize, req: usize, inst: usize) -> Vec<Viol> {
     let mut out = vec![];
     let installed: Option<Version> = POOL.get(inst).map(|v| v.parse().unwrap());
@@ -77,23 +104,26 @@ fn check_cell(op: usize, req: usize, inst: usize) -> Vec<Viol> {
     if l1 != installed || l2 != installed || l3 != installed {
         out.push(viol("lookup-forms-agree", format!("installed {:?}: map {:?} closure {:?} pair {:?}", installed, l1, l2, l3)));
     }
-    // lossless
-    let rels = ll::Relations::from_str(&text).unwrap();
-    let got = rels.satisfied_by(closure);
-    if got != want {
-        out.push(viol("lossless-relations", ctx("lossless Relations::satisfied_by(closure)", got)));
-    }
-    let entry = rels.get_entry(0).unwrap();
-    let got = entry.satisfied_by(closure);
-    if got != want {
-        out.push(viol("lossless-entry", ctx("lossless Entry::satisfied_by(closure)", got)));
+    // lossless, on trees of every provenance
+    for (how, rels) in ll_variants(&text) {
+        let got = rels.satisfied_by(closure);
+        if got != want {
+            out.push(viol("lossless-relations", ctx(&format!("lossless Relations::satisfied_by(closure) on the field {}", how), got)));
+        }
+        let entry = rels.get_entry(0).unwrap();
+        let got = entry.satisfied_by(closure);
+        if got != want {
+            out.push(viol("lossless-entry", ctx(&format!("lossless Entry::satisfied_by(closure) on the field {}", how), got)));
+        }
     }
     // lossy
-    let lrels = ly::Relations::from_str(&text).unwrap();
-    let got = lrels.satisfied_by(closure);
-    if got != want {
-        out.push(viol("lossy-relations", ctx("lossy Relations::satisfied_by(closure)", got)));
+    for (how, lrels) in ly_variants(&text) {
+        let got = lrels.satisfied_by(closure);
+        if got != want {
+            out.push(viol("lossy-relations", ctx(&format!("lossy Relations::satisfied_by(closure) on the field {}", how), got)));
+        }
     }
+    let lrels = ly::Relations::from_str(&text).unwrap();
     let lrel = &lrels.0[0][0];
     for (who, got) in [
         ("lossy Relation::satisfied_by(closure)", lrel.satisfied_by(closure)),
@@ -123,13 +153,17 @@ fn check_same(alts: &[(usize, usize)], inst: usize) -> Vec<Viol> {
     );
     let want = alts.iter().any(|(op, req)| reference_cell(*op, *req, inst_idx));
     let closure = |name: &str| -> Option<Version> { map.get(name).cloned() };
-    let got_ll = ll::Relations::from_str(&text).unwrap().satisfied_by(closure);
-    let got_ly = ly::Relations::from_str(&text).unwrap().satisfied_by(closure);
-    if got_ll != want {
-        out.push(viol("lossless-same-package-alternatives", format!("field {:?} with pkg at {:?}: lossless says {}, expected {}", text, POOL.get(inst), got_ll, want)));
+    for (how, r) in ll_variants(&text) {
+        let got_ll = r.satisfied_by(closure);
+        if got_ll != want {
+            out.push(viol("lossless-same-package-alternatives", format!("field {:?} ({}) with pkg at {:?}: lossless says {}, expected {}", text, how, POOL.get(inst), got_ll, want)));
+        }
     }
-    if got_ly != want {
-        out.push(viol("lossy-same-package-alternatives", format!("field {:?} with pkg at {:?}: lossy says {}, expected {}", text, POOL.get(inst), got_ly, want)));
+    for (how, r) in ly_variants(&text) {
+        let got_ly = r.satisfied_by(closure);
+        if got_ly != want {
+            out.push(viol("lossy-same-package-alternatives", format!("field {:?} ({}) with pkg at {:?}: lossy says {}, expected {}", text, how, POOL.get(inst), got_ly, want)));
+        }
     }
     out
 }
@@ -158,13 +192,17 @@ fn check_nest(entries: &[Vec<u8>]) -> Vec<Viol> {
     let text = parts.join(", ");
     let want = entries.iter().all(|alts| alts.iter().any(|s| *s == 0));
     let closure = |name: &str| -> Option<Version> { map.get(name).cloned() };
-    let got_ll = ll::Relations::from_str(&text).unwrap().satisfied_by(closure);
-    let got_ly = ly::Relations::from_str(&text).unwrap().satisfied_by(closure);
-    if got_ll != want {
-        out.push(viol("lossless-and-or", format!("field {:?} statuses {:?}: lossless says {}, expected {}", text, entries, got_ll, want)));
+    for (how, r) in ll_variants(&text) {
+        let got_ll = r.satisfied_by(closure);
+        if got_ll != want {
+            out.push(viol("lossless-and-or", format!("field {:?} ({}) statuses {:?}: lossless says {}, expected {}", text, how, entries, got_ll, want)));
+        }
     }
-    if got_ly != want {
-        out.push(viol("lossy-and-or", format!("field {:?} statuses {:?}: lossy says {}, expected {}", text, entries, got_ly, want)));
+    for (how, r) in ly_variants(&text) {
+        let got_ly = r.satisfied_by(closure);
+        if got_ly != want {
+            out.push(viol("lossy-and-or", format!("field {:?} ({}) statuses {:?}: lossy says {}, expected {}", text, how, entries, got_ly, want)));
+        }
     }
     out
 }
